@@ -134,9 +134,10 @@ def decode_output(text: str):
 def make_padding(p):
     from term_image.padding import AlignedPadding, ExactPadding, HAlign, VAlign
 
+    fill = p.get("fill", " ")
     if p["kind"] == "exact":
-        return ExactPadding(p["l"], p["t"], p["r"], p["b"])
-    return AlignedPadding(p["w"], p["h"], HAlign(p["ha"]), VAlign(p["va"]))
+        return ExactPadding(p["l"], p["t"], p["r"], p["b"], fill)
+    return AlignedPadding(p["w"], p["h"], HAlign(p["ha"]), VAlign(p["va"]), fill)
 
 
 class RealIter:
